@@ -52,6 +52,31 @@ template<class G> struct Pred {
       o.mat(X.compose(X.inverse()).transform()); o.mat(eye(n));
       return true;
     }
+    if(op=="P07"){   // C07: a, b, c tangents
+      T a=mkT(c.args[0]), b=mkT(c.args[1]), cc=mkT(c.args[2]);
+      using Alg = typename T::LieAlg;
+      Alg ah=a.hat(), bh=b.hat();
+      Alg sum = Alg::Zero(); for(int i=0;i<T::DoF;i++) sum += a.coeffs()(i)*T::Generator(i);
+      o.mat(ah); o.mat(sum);                                            // hat = sum t_i G_i
+      o.mat(T::Vee(ah).coeffs()); o.mat(a.coeffs());                    // Vee(hat) = id
+      o.mat(T::Bracket(a,b).hat()); o.mat(Alg(ah*bh-bh*ah));            // bracket = commutator
+      { T ab=a.bracket(b), ba=b.bracket(a); DT nba = -ba.coeffs(); o.mat(ab.coeffs()); o.mat(nba); }   // antisymmetry
+      { T j1=a.bracket(b.bracket(cc)), j2=b.bracket(cc.bracket(a)), j3=cc.bracket(a.bracket(b));
+        DT j = j1.coeffs() + j2.coeffs() + j3.coeffs(); DT z = DT::Zero();
+        o.mat(j); o.mat(z); }                                           // Jacobi
+      o.scalar(a.inner(b)); o.scalar((ah*bh.transpose()).trace());      // Frobenius
+      o.mat(T::InnerWeights()); o.mat(T::InnerWeights().transpose().eval());    // symmetric
+      o.scalar(a.squaredWeightedNorm()); o.scalar(a.inner(a));
+      { S k=cc.coeffs()(0); T lin = a + b*k;                            // hat linear
+        o.mat(lin.hat()); o.mat(Alg(ah + k*bh)); }
+      { int thrown=0, tried=0; int idx[] = {-1, -2, T::DoF, T::DoF+1, 1000, -2147483647-1, 2147483647};
+        for(int i: idx){ tried++; try{ (void)T::Generator(i); } catch(const manif::invalid_argument&){ thrown++; } }
+        o.scalar(S(thrown)); o.scalar(S(tried)); }                      // out-of-range indices raise
+      { // positive definite: a^T W a > 0 unless a = 0  (reported as the pair (sign, expected sign))
+        S q = a.inner(a); bool zero = a.coeffs().squaredNorm()==S(0);
+        o.scalar(S( (q>S(0)) ? 1 : ((q==S(0))?0:-1) )); o.scalar(S(zero?0:1)); }
+      return true;
+    }
     return false;
   }
 };
